@@ -18,7 +18,8 @@ META = {
     'technique': 'Coq proof (induction over the class tree, loop invariants for both engines, refinement to a declarative '
                  'specification) on a hand-written Gallina model + differential correspondence with the implementation',
     'design_ref': 'DESIGN.md section 4 C09',
-    'theorems': ['C09_subset', 'C09_refines', 'C09_ok_iff', 'C09_error_exact', 'C09_subset_top', 'C09_factory_fresh'],
+    'theorems': ['C09_subset_partial', 'C09_refines_partial', 'C09_ok_iff', 'C09_error_exact', 'C09_subset_top_partial', 'C09_factory_fresh',
+                 'C09_v1_refuted_kwonly'],
     'tables': [],
     'level_text': ('Theorems proved in Coq for ALL class trees (any mix of required/default/default_factory/init=False fields, '
                    'nested dataclasses and lists of dataclasses, any depth) and ALL deletion subsets of a complete document at any '
@@ -32,10 +33,15 @@ META = {
              'init=False anywhere; kinds leaf int/str/List[int], nested dataclass, List[dataclass] with 0-2 elements, Optional nested '
              'default None, nested default_factory); documents: the complete document and every subset of its key positions when '
              '<= 10 positions (exhaustive), else 200 (quick) / 1000 (thorough) random subsets, deduplicated by resulting document; '
-             'both engines.  Non-trivial = at least one key deleted; distinct = distinct (class, engine, document).'),
+             'both engines; declaration styles: keyword-only fields (per field / class), frozen, slots, a base class; entry points fromdict / '
+             'fromlist / JSONWizard.from_dict / from_json; every document loaded three times (the third after mutating the factory '
+             'products of the first two).  Separate stream (direct predicates only): classes with key-path fields (path_field / KeyPath / '
+             'AliasPath) of type int/str/List[int]/Dict[str,int]/Any/dataclass with default, default_factory or required, all subsets '
+             'of their key positions.  Non-trivial = at least one key deleted; distinct = distinct (class, engine, document).'),
     'trusted_base': ['model coq/model/FieldsMissing.v transcribes loaders.py cls_fromdict tail, errors.py MissingFields.__init__, '
                      'v1/loaders.py field loop + check_and_raise_missing_fields and dataclasses.__init__ (validated by correspondence)'],
-    'assumptions': ['keys of the document are the field names (no aliases / key-case transforms / JSON paths: see finding F42 for paths)',
+    'assumptions': ['Coq model: keys of the document are the field names (no aliases / key-case transforms); key-path fields are checked by direct predicates only',
+                    'v1 theorems exclude classes with a required keyword-only field (open finding F43, refuted in Coq)',
                     'no recursive classes; field names pairwise distinct (wf_cls); unique class names'],
 }
 
@@ -87,14 +93,48 @@ def gen_class(r, depth, counter, max_fields=5):
                 else:
                     f['fac'] = 'list'; f['fid'] = 1
         fields.append(f)
-    # dataclass rule: among init fields, required ones come first
-    req = [f for f in fields if f['init'] and f['dflt'] == 'req']
-    opt = [f for f in fields if f['init'] and f['dflt'] != 'req']
-    noinit = [f for f in fields if not f['init']]
+    # declaration styles: keyword-only fields (per field / whole class), frozen, slots, a base class
+    kw_cls = r.random() < 0.07
+    for f in fields:
+        f['kw_only'] = bool(f['init'] and (kw_cls or r.random() < 0.1))
+    # dataclass rule: among the positional init fields, required ones come first; keyword-only and
+    # init=False fields may stand anywhere
+    req = [f for f in fields if f['init'] and not f['kw_only'] and f['dflt'] == 'req']
+    opt = [f for f in fields if f['init'] and not f['kw_only'] and f['dflt'] != 'req']
+    free = [f for f in fields if not f['init'] or f['kw_only']]
     ordered = req + opt
-    for f in noinit:
+    for f in free:
         ordered.insert(r.randint(0, len(ordered)), f)
-    return {'name': name, 'fields': ordered}
+    spec = {'name': name, 'fields': ordered, 'kw_only_cls': kw_cls,
+            'frozen': r.random() < 0.15, 'slots': r.random() < 0.15, 'base_split': None}
+    if len(ordered) >= 2 and r.random() < 0.2:
+        spec['base_split'] = r.randint(1, len(ordered) - 1)
+    return spec
+
+
+def kw_pairs(spec, acc):
+    for f in spec['fields']:
+        if f.get('kw_only'):
+            acc.append((spec['name'], f['name']))
+        if f['kind'] != 'leaf':
+            kw_pairs(f['cls'], acc)
+    return acc
+
+
+def f43_positions(spec, doc, acc):
+    """v1: dataclass positions whose class has a required keyword-only init field and where no required field
+    is omitted (so the constructor is reached): region of finding F43"""
+    reqs = [f for f in spec['fields'] if f['init'] and f['dflt'] == 'req']
+    if any(f.get('kw_only') for f in reqs) and all(f['name'] in doc for f in reqs):
+        acc.append(spec['name'])
+    for f in spec['fields']:
+        if f['init'] and f['name'] in doc:
+            if f['kind'] == 'nested':
+                f43_positions(f['cls'], doc[f['name']], acc)
+            elif f['kind'] == 'list':
+                for d in doc[f['name']]:
+                    f43_positions(f['cls'], d, acc)
+    return acc
 
 
 def gen_leaf_value(r, ty):
@@ -239,6 +279,8 @@ def direct_predicate(spec, doc, res):
             return 'MissingFields(%s, %r) is not the omitted required fields of any position %r' % (got[0], got[1], fails)
     if res.get('repeat_same') is False:
         return 'the second identical load gave a different outcome'
+    if res.get('after_mutation_same') is False:
+        return 'after mutating the default_factory products of earlier instances, the same load gives a different instance'
     return None
 
 
@@ -302,9 +344,14 @@ Definition show_err (e : err) : pstr :=
   | EMissingFields cn p m => S "E:" ++ cn ++ S ":" ++ join (S ",") p ++ S ":" ++ join (S ",") m
   | EParse cn fn => S "P:" ++ cn ++ S ":" ++ fn
   | EShape cn => S "S:" ++ cn
+  | EBareType cn => S "T:" ++ cn
   end.
+'''
+
+PRELUDE_TAIL = '''
+Definition xkw (cn fn : pstr) : bool := existsb (fun p => pstr_eqb (fst p) cn && pstr_eqb (snd p) fn) kwtab.
 Definition run (e : engine) (c : cls pstr pstr) (d : jv pstr) : pstr :=
-  match fst (load xconv e c d 0%N) with Ok v => show_pv v | Err er => show_err er end.
+  match fst (load xconv xkw e c d 0%N) with Ok v => show_pv v | Err er => show_err er end.
 '''
 
 
@@ -313,7 +360,152 @@ def impl_show(res):
         return res['ok']
     if res.get('err') == 'MissingFields' and isinstance(res.get('provided'), list):
         return 'E:%s:%s:%s' % (res.get('class_name'), ','.join(res['provided']), ','.join(res.get('missing_fields') or []))
+    if res.get('err') == 'TypeError' and '.__init__()' in (res.get('msg') or ''):
+        return 'T:%s' % res['msg'].split('.__init__()')[0]
+    if res.get('err') == 'ParseError':
+        return 'P:%s:%s' % (res.get('class_name'), res.get('field_name'))
     return 'X:%s' % res.get('err')
+
+
+# --------------------------------------------------------------------------- classes with key-path fields
+def gen_path_class(r, counter):
+    counter[0] += 1
+    used = set()
+    tops = [gen_name(r, used) for _ in range(r.choice([1, 2]))]
+    fields = [{'name': gen_name(r, used), 'ty': 'str', 'dflt': 'req', 'path': None}]
+    for _ in range(r.randint(1, 4)):
+        ty = r.choice(['int', 'str', 'ints', 'ints', 'dict', 'dict', 'any', 'inst'])
+        f = {'name': gen_name(r, used), 'ty': ty, 'path': [r.choice(tops), gen_name(r, used)],
+             'style': r.choice(['path_field', 'keypath'])}
+        if ty in ('int', 'str'):
+            f['dflt'] = r.choice(['def', 'def', 'req'])
+            if f['dflt'] == 'def':
+                f['default'] = r.randint(0, 9) if ty == 'int' else r.choice(['', 'dv'])
+        else:
+            f['dflt'] = 'fac'
+        fields.append(f)
+    if r.random() < 0.5:
+        fields.append({'name': gen_name(r, used), 'ty': 'ints', 'dflt': 'fac', 'path': None})
+    return {'name': 'P%d' % counter[0], 'fields': fields, 'tops': tops}
+
+
+def path_value(r, ty):
+    return {'int': lambda: r.randint(0, 99), 'str': lambda: r.choice(['a', 'hello']), 'ints': lambda: [r.randint(0, 9)],
+            'dict': lambda: {'k': r.randint(0, 9)}, 'any': lambda: [r.randint(0, 9)], 'inst': lambda: {'k': r.randint(2, 9)}}[ty]()
+
+
+def path_complete(r, spec):
+    doc = {}
+    for f in spec['fields']:
+        if f['path']:
+            doc.setdefault(f['path'][0], {})[f['path'][1]] = path_value(r, f['ty'])
+        else:
+            doc[f['name']] = path_value(r, f['ty'])
+    return doc
+
+
+def path_positions(spec, doc):
+    pos = [(k,) for k in doc]
+    for t in spec['tops']:
+        if t in doc:
+            pos.extend((t, k) for k in doc[t])
+    return pos
+
+
+def path_present(f, doc):
+    if f['path']:
+        return f['path'][0] in doc and f['path'][1] in doc[f['path'][0]]
+    return f['name'] in doc
+
+
+def path_canon(ty, v):
+    if ty == 'int':
+        return {'int': str(v)}
+    if ty == 'str':
+        return {'str': v}
+    if ty in ('ints', 'any'):
+        return {'list': [{'int': str(x)} for x in v]}
+    if ty == 'dict':
+        return {'dict': [[{'str': k}, {'int': str(x)}] for k, x in v.items()]}
+    return {'inst': 'PInner', 'fields': {'k': {'int': str(v['k'])}}}
+
+
+PATH_DEFAULT = {'ints': {'list': []}, 'any': {'list': []}, 'dict': {'dict': []}, 'inst': {'inst': 'PInner', 'fields': {'k': {'int': '1'}}}}
+
+
+def path_expected(spec, doc):
+    missing = [f['name'] for f in spec['fields'] if f['dflt'] == 'req' and not path_present(f, doc)]
+    if missing:
+        return None, missing
+    view = {}
+    for f in spec['fields']:
+        if path_present(f, doc):
+            v = doc[f['path'][0]][f['path'][1]] if f['path'] else doc[f['name']]
+            view[f['name']] = path_canon(f['ty'], v)
+        elif f['dflt'] == 'def':
+            view[f['name']] = path_canon(f['ty'], f['default'])
+        else:
+            view[f['name']] = PATH_DEFAULT[f['ty']]
+    return view, []
+
+
+def path_region(spec, engine, doc):
+    """the open finding whose (narrow) region contains this input, or None"""
+    for f in spec['fields']:
+        if f['path'] and f['dflt'] == 'req' and not path_present(f, doc):
+            return 'F44-required-path-parse-error'
+    if engine == 'v0':
+        for f in spec['fields']:
+            if f['path'] and f['dflt'] == 'fac' and f['ty'] in ('any', 'inst') and not path_present(f, doc):
+                return 'F42-path-default-shared'
+    return None
+
+
+def path_predicate(spec, doc, res):
+    if not res.get('input_unchanged', True):
+        return 'the input document was mutated'
+    exp, missing = path_expected(spec, doc)
+    if missing:
+        if 'ok' in res:
+            return 'required field(s) %r omitted but the load succeeded' % (missing,)
+        if res.get('err') != 'MissingFields':
+            return 'required field(s) %r omitted but %s was raised: %s' % (missing, res.get('err'), (res.get('msg') or '')[:120])
+        if res.get('missing_fields') != missing or res.get('class_name') != spec['name'] or not res.get('renders'):
+            return 'MissingFields(%s, %r), expected (%s, %r)' % (res.get('class_name'), res.get('missing_fields'), spec['name'], missing)
+        return None
+    if 'ok' not in res:
+        return 'no required field omitted but the load raised %s: %s' % (res.get('err'), (res.get('msg') or '')[:120])
+    if res['ok'] != exp:
+        return 'loaded %s, expected %s' % (json.dumps(res['ok'])[:300], json.dumps(exp)[:300])
+    if res.get('second') != exp:
+        return 'the second identical load gave %s' % json.dumps(res.get('second'))[:300]
+    if res.get('shared'):
+        return 'default_factory products of field(s) %r are the SAME object in two instances' % (res['shared'],)
+    if res.get('after_mutation') != exp:
+        return 'after mutating the defaults of an earlier instance the same load gives %s' % json.dumps(res.get('after_mutation'))[:300]
+    return None
+
+
+def build_path_cases(ctx):
+    r = ctx.sub_rng('paths')
+    n = 24 if ctx.tier == 'quick' else 240
+    counter = [0]
+    out = []
+    for _ in range(n):
+        spec = gen_path_class(r, counter)
+        doc = path_complete(r, spec)
+        pos = path_positions(spec, doc)
+        if len(pos) > 9:
+            continue
+        docs, seen = [], set()
+        for k in range(len(pos) + 1):
+            for c in itertools.combinations(pos, k):
+                d = delete(doc, frozenset(c))
+                key = json.dumps(d)
+                if key not in seen:
+                    seen.add(key); docs.append(d)
+        out.append({'spec': spec, 'docs': docs})
+    return out
 
 
 # --------------------------------------------------------------------------- run
@@ -364,23 +556,51 @@ def spec_depth(spec):
     return 1 + max([spec_depth(f['cls']) for f in spec['fields'] if f['kind'] != 'leaf'] or [0])
 
 
+ENTRIES = ['fromdict', 'fromdict', 'fromlist', 'from_dict', 'from_json']
+
+
+def witness_state(impl_w):
+    wp, wk, wr = impl_w
+    return {
+        'F42-path-default-shared': bool(wp.get('shared') or wp.get('leaked') or 'err' in wp.get('dataclass_default', {})),
+        'F43-v1-kwonly-required-positional': ('ok' not in wk.get('v1_complete', {})),
+        'F44-required-path-parse-error': (wr.get('v0', {}).get('err') != 'MissingFields' or wr.get('v1', {}).get('err') != 'MissingFields'),
+    }
+
+
 def run(ctx):
     classes = build_cases(ctx)
+    pcases = build_path_cases(ctx)
     engines = ['v0', 'v1']
-    payload = {'classes': [{'spec': c['spec'], 'engine': e, 'docs': c['docs']} for c in classes for e in engines],
-               'witness': [{'kind': 'path_factory'}]}
+    re_ = ctx.sub_rng('entries')
+    for c in classes:
+        c['entry'] = {e: re_.choice(ENTRIES) for e in engines}
+    payload = {'classes': [{'spec': c['spec'], 'engine': e, 'docs': c['docs'], 'entry': c['entry'][e]} for c in classes for e in engines],
+               'pathclasses': [{'spec': c['spec'], 'engine': e, 'docs': c['docs']} for c in pcases for e in engines],
+               'witness': [{'kind': 'path_factory'}, {'kind': 'v1_kwonly'}, {'kind': 'required_path'}]}
     impl = ctx.impl('c09', payload)
 
     # ---- known findings: replay the witnesses --------------------------------------
-    w = impl['witness'][0]
-    if ctx.finding('F42-path-default-shared'):
-        still = bool(w.get('shared') or w.get('leaked') or 'err' in w.get('dataclass_default', {}))
-        ctx.known_finding('F42-path-default-shared', still_fails=still)
-        ctx.count(1, key='witness:F42', nontrivial=True)
+    state = witness_state(impl['witness'])
+    resolved = set()
+    for fid, still in state.items():
+        if ctx.finding(fid):
+            ctx.known_finding(fid, still_fails=still)
+            ctx.count(1, key='witness:' + fid, nontrivial=True)
+            if not still:
+                resolved.add(fid)
+    if impl['witness'][0].get('typed_shared'):
+        ctx.violation('default engine: a List[int] path_field with default_factory=list shares ONE list between instances',
+                      {'kind': 'path_factory'})
 
     # ---- model ------------------------------------------------------------------------
-    prelude = PRELUDE_HEAD + '\n'.join('Definition c%d : cls pstr pstr := %s.' % (i, coq_cls(c['spec']))
-                                        for i, c in enumerate(classes))
+    kws = []
+    for c in classes:
+        kw_pairs(c['spec'], kws)
+    prelude = (PRELUDE_HEAD +
+               'Definition kwtab : list (pstr * pstr) := %s.\n' % coq_list(['(%s, %s)' % (coq_str(a), coq_str(b)) for a, b in kws]) +
+               PRELUDE_TAIL +
+               '\n'.join('Definition c%d : cls pstr pstr := %s.' % (i, coq_cls(c['spec'])) for i, c in enumerate(classes)))
     exprs = []
     for i, c in enumerate(classes):
         for e in engines:
@@ -400,20 +620,29 @@ def run(ctx):
         ctx.hist('positions', c['n_pos'])
         ctx.hist('class_depth', spec_depth(c['spec']))
         ctx.hist('subsets', 'exhaustive' if c['exhaustive'] else 'random')
+        ctx.hist('class_style', '%s%s%s%s' % ('kw_only_cls ' if c['spec']['kw_only_cls'] else '', 'frozen ' if c['spec']['frozen'] else '',
+                                               'slots ' if c['spec']['slots'] else '', 'base' if c['spec']['base_split'] else '') or 'plain')
         for f in c['spec']['fields']:
-            ctx.hist('field', '%s/%s/%s' % (f['kind'], f['dflt'], 'init' if f['init'] else 'noinit'))
+            ctx.hist('field', '%s/%s/%s%s' % (f['kind'], f['dflt'], 'init' if f['init'] else 'noinit', '/kw_only' if f.get('kw_only') else ''))
         for e in engines:
             results = impl['classes'][idx]
             idx += 1
+            ctx.hist('entry_point', c['entry'][e])
             for d, res in zip(c['docs'], results):
                 key = 'c:%s|%s|%s' % (json.dumps(c['spec'], sort_keys=True), e, json.dumps(d))
                 ctx.count(1, key=key, nontrivial=(d != c['complete']))
                 ctx.hist('outcome', e + '/' + ('ok' if 'ok' in res else res.get('err', '?')))
+                in43 = (e == 'v1' and bool(f43_positions(c['spec'], d, [])))
                 bad = direct_predicate(c['spec'], d, res)
                 if bad:
-                    ctx.violation('%s engine, class %s, document %s: %s' % (e, c['spec']['name'], json.dumps(d)[:200], bad),
-                                  {'kind': 'case', 'spec': c['spec'], 'engine': e, 'doc': d})
-                if model is not None:
+                    bare = (res.get('err') == 'TypeError' and '.__init__()' in (res.get('msg') or '')) or \
+                           (res.get('err') == 'ParseError' and res.get('base') == 'TypeError' and '.__init__()' in (res.get('base_msg') or ''))
+                    if in43 and ctx.is_open_region('F43-v1-kwonly-required-positional') and bare:
+                        ctx.hist('known_region', 'F43-v1-kwonly-required-positional')
+                    else:
+                        ctx.violation('%s engine (%s), class %s, document %s: %s' % (e, c['entry'][e], c['spec']['name'], json.dumps(d)[:200], bad),
+                                      {'kind': 'case', 'spec': c['spec'], 'engine': e, 'doc': d, 'entry': c['entry'][e]})
+                if model is not None and not (in43 and 'F43-v1-kwonly-required-positional' in resolved):
                     ctx.traces_validated += 1
                     if impl_show(res) != model[j]:
                         n_dis += 1
@@ -422,6 +651,26 @@ def run(ctx):
                             ctx.broken_tie('FieldsMissing model and implementation disagree (%s engine)' % e,
                                            {'spec': c['spec'], 'doc': d, 'engine': e, 'impl': impl_show(res), 'model': model[j]})
                 j += 1
+
+    # ---- key-path classes: direct predicates only (paths are outside the Coq model) -----------
+    idx = 0
+    for c in pcases:
+        for f in c['spec']['fields']:
+            ctx.hist('path_field', '%s/%s/%s' % ('path' if f['path'] else 'plain', f['ty'], f['dflt']))
+        for e in engines:
+            results = impl['pathclasses'][idx]
+            idx += 1
+            for d, res in zip(c['docs'], results):
+                ctx.count(1, key='p:%s|%s|%s' % (json.dumps(c['spec'], sort_keys=True), e, json.dumps(d)), nontrivial=True)
+                ctx.hist('path_outcome', e + '/' + ('ok' if 'ok' in res else res.get('err', '?')))
+                bad = path_predicate(c['spec'], d, res)
+                if bad:
+                    reg = path_region(c['spec'], e, d)
+                    if reg and ctx.is_open_region(reg):
+                        ctx.hist('known_region', reg)
+                    else:
+                        ctx.violation('%s engine, key-path class %s, document %s: %s' % (e, c['spec']['name'], json.dumps(d)[:200], bad),
+                                      {'kind': 'pathcase', 'spec': c['spec'], 'engine': e, 'doc': d})
     c0 = classes[0]
     ctx.sample({'class': c0['spec'], 'complete_document': c0['complete'], 'n_documents': len(c0['docs']),
                 'one_subset': c0['docs'][len(c0['docs']) // 2], 'impl_outcome_v0': impl['classes'][0][len(c0['docs']) // 2]})
@@ -430,18 +679,32 @@ def run(ctx):
         k = classes.index(big)
         ctx.sample({'class_with_random_subsets': big['spec']['name'], 'positions': big['n_pos'], 'n_documents': len(big['docs']),
                     'one_subset': big['docs'][-1], 'impl_outcome_v1': impl['classes'][2 * k + 1][-1]})
+    if pcases:
+        ctx.sample({'key_path_class': pcases[0]['spec'], 'one_document': pcases[0]['docs'][-1], 'impl_outcome_v0': impl['pathclasses'][0][-1]})
 
 
 def replay(ctx, obj):
     if obj.get('kind') == 'case':
-        res = ctx.impl('c09', {'classes': [{'spec': obj['spec'], 'engine': obj['engine'], 'docs': [obj['doc']]}]})['classes'][0][0]
+        res = ctx.impl('c09', {'classes': [{'spec': obj['spec'], 'engine': obj['engine'], 'docs': [obj['doc']],
+                                            'entry': obj.get('entry', 'fromdict')}]})['classes'][0][0]
         bad = direct_predicate(obj['spec'], obj['doc'], res)
         print('implementation outcome: %s' % json.dumps(res)[:600])
         print('property: %s' % (bad or 'holds'))
         return bad is None
-    if obj.get('kind') == 'path_factory' or obj.get('finding') == 'F42-path-default-shared':
-        w = ctx.impl('c09', {'witness': [{'kind': 'path_factory'}]})['witness'][0]
-        print('witness outcome: %s' % json.dumps(w)[:600])
-        return not (w.get('shared') or w.get('leaked') or 'err' in w.get('dataclass_default', {}))
+    if obj.get('kind') == 'pathcase':
+        res = ctx.impl('c09', {'pathclasses': [{'spec': obj['spec'], 'engine': obj['engine'], 'docs': [obj['doc']]}]})['pathclasses'][0][0]
+        bad = path_predicate(obj['spec'], obj['doc'], res)
+        print('implementation outcome: %s' % json.dumps(res)[:600])
+        print('property: %s' % (bad or 'holds'))
+        return bad is None
+    fid = obj.get('finding') or ''
+    if obj.get('kind') in ('path_factory', 'v1_kwonly', 'required_path') or fid[:3] in ('F42', 'F43', 'F44'):
+        w = ctx.impl('c09', {'witness': [{'kind': 'path_factory'}, {'kind': 'v1_kwonly'}, {'kind': 'required_path'}]})['witness']
+        state = witness_state(w)
+        print('witness outcomes: %s' % json.dumps(w)[:900])
+        if obj.get('kind') == 'path_factory':
+            return not (state['F42-path-default-shared'] or w[0].get('typed_shared'))
+        key = {'v1_kwonly': 'F43', 'required_path': 'F44'}.get(obj.get('kind'), fid[:3])
+        return not next(v for k, v in state.items() if k.startswith(key))
     print('replay object names a broken tie, not an input: %s' % json.dumps(obj)[:1000])
     return False
